@@ -175,4 +175,11 @@ def units(ctx):
         'BOUNDED: every token string over {value, comma, named argument} of '
         'length <= 8 inside f(...): accepted iff in the reference language, '
         'with the reference slot list'))
+    us.append(bounded_unit(
+        'bounded:c12-spellings', 'c12_spellings.py',
+        'BOUNDED: every library function callable by name, with argument '
+        'tuples from a typed corpus (the first values each declared type '
+        'accepts): positional / keyword from every split point / empty slot '
+        'vs omitted default / call(name, args, kwargs) / function vs method '
+        'form all give the same result or error class', timeout=900))
     return us
